@@ -50,7 +50,7 @@ func (e exec0) Do(line string) string {
 
 var extra = map[string]any{}
 
-const rule = "one case = one scenario (timed script of Queue/QueuePrioritized/StartASAP/Schedule/MaxDelay/Cancel calls by 1-3 caller goroutines and from inside task functions, run times 0-40 ms, delays at the three yield points) executed on the real scheduler in a worker process; its lines are the recorded hook events in the order of the bracketed scheduler sections, each with the implementation's state snapshot, replayed through the Lean model (acceptor + snapshot comparison). Kinds: force-* (the races and stale states the proofs single out, jittered), stale-timer-queued (tasks with max delays of varying size waiting behind a long-running task while early schedule entries are withdrawn, cancelled or moved: the timer fires for an entry that is gone), misuse (cancelled/inert tasks, zero times, zero max delay), rand* (random histories; rand-long = 30-70 calls on 1-3 tasks; rand-sched = shared absolute schedule times). Non-trivial: at least one task start and at least three API calls; distinct = distinct event traces."
+const rule = "one case = one scenario (timed script of Queue/QueuePrioritized/StartASAP/Schedule/MaxDelay/Cancel calls by 1-3 caller goroutines and from inside task functions, run times 0-40 ms, delays at the four yield points) executed on the real scheduler in a worker process; its lines are the recorded hook events in the order of the bracketed scheduler sections, each with the implementation's state snapshot, replayed through the Lean model (acceptor + snapshot comparison). Kinds: force-* (the races and stale states the proofs single out, jittered), direct-holds-queue (the queue is busy longer than the max delay of a waiting task, which is then started directly by the schedule handler and runs on after the queue task returned, while further tasks wait: they are due only after it returned or was cancelled; some with the queue handler held between its slot check and its pick), stale-timer-queued (tasks with max delays of varying size waiting behind a long-running task while early schedule entries are withdrawn, cancelled or moved: the timer fires for an entry that is gone), misuse (cancelled/inert tasks, zero times, zero max delay), rand* (random histories; rand-long = 30-70 calls on 1-3 tasks; rand-sched = shared absolute schedule times). Non-trivial: at least one task start and at least three API calls; distinct = distinct event traces."
 
 func main() {
 	if len(os.Args) > 1 && os.Args[1] == "-c07worker" {
@@ -124,6 +124,9 @@ func scenarios(r *hxlib.Run) []*Scn {
 	}
 	for i := 0; i < r.Budget(40, 800); i++ {
 		out = append(out, staleTimerScn(r.Rng))
+	}
+	for i := 0; i < r.Budget(40, 800); i++ {
+		out = append(out, directHoldsScn(r.Rng))
 	}
 	kinds := []string{"rand", "rand", "rand", "rand-small", "rand-nocancel", "rand-nocancel", "rand-sched", "rand-sched", "rand-long"}
 	for len(out) < total {
